@@ -22,3 +22,16 @@ def match(name, line):
         return bool(f and line and f(line))
     except Exception:
         return False
+
+
+import re
+
+@sig("C05-capture-with-place-marker")
+def _c05_marker(line):
+    """route language: the request target carries an encoded '%' followed by a digit or 'L', so a
+    decoded capture can contain a QString::arg place marker"""
+    for t in tokens(line):
+        if t.startswith("req:"):
+            raw = unhx(t.split(":")[1])
+            return re.search(rb"%25(?:[0-9L]|%3[0-9])", raw) is not None
+    return False
